@@ -35,6 +35,8 @@ SHAPES = {
 }
 MIXED = ["Hexagon", "Annulus", "Rectangle", "Triangle", "Square", "Helix", "SolidRectangle", "HoledHexagon", "Circle", "HexRing"]
 FAMILIES = ("circle", "mixed", "derived", "hot")
+# "gap": a block whose second component is a Void gap with NEGATIVE hot area (hot UZr slug overlapping the HT9 clad's inner
+# diameter through linked dimensions; cold geometry legal) -- only for trees whose second area is negative
 
 
 class World:
@@ -86,6 +88,10 @@ def make_block(name, areas, height, family="circle", salt=0):
     from armi.reactor import blocks
 
     b = blocks.HexBlock(name, height=float(height))
+    if family == "gap":
+        for c in _gap_components(name, areas):
+            b.add(c)
+        return b
     comps = []
     n = len(areas)
     total = float(sum(areas))
@@ -119,6 +125,29 @@ def make_block(name, areas, height, family="circle", salt=0):
     for c in comps:
         b.add(c)
     return b
+
+
+def _gap_components(name, areas):
+    """fuel slug (UZr, 800 C), Void gap linked to clad.id / fuel.od with hot area areas[1] < 0, clad (HT9, 400 C), the rest Custom circles"""
+    if len(areas) < 3 or not areas[1] < 0:
+        raise MachineryError("the gap family needs areas = [fuel, negative gap, clad, ...]")
+    names = ["%s-c%d" % (name, i) for i in range(len(areas))]
+    fuel = make_component("Circle", names[0], float(areas[0]), "UZr", 1, 25.0, 800.0)
+    fod = fuel.getDimension("od")  # hot
+    k = _cls("Circle")("t", "HT9", Tinput=25.0, Thot=400.0, od=1.0, id=0.0, mult=1).getDimension("od")  # hot / cold length of the clad
+    idh = math.sqrt(fod ** 2 + 4.0 * float(areas[1]) / math.pi)
+    odh = math.sqrt(idh ** 2 + 4.0 * float(areas[2]) / math.pi)
+    clad = _cls("Circle")(names[2], "HT9", Tinput=25.0, Thot=400.0, od=odh / k, id=idh / k, mult=1)
+    gap = _cls("Circle")(names[1], "Void", Tinput=400.0, Thot=400.0, od="%s.id" % names[2], id="%s.od" % names[0], mult=1,
+                         components={names[2]: clad, names[0]: fuel})
+    rest = [make_component("Circle", names[i], float(areas[i]), "Custom", 1, 25.0, 25.0) for i in range(3, len(areas))]
+    comps = [fuel, gap, clad] + rest
+    for c, a in zip(comps, areas):
+        if abs(c.getArea() - a) > 1e-10 * abs(a):
+            raise MachineryError("gap family: component %s has area %r, wanted %r" % (c, c.getArea(), a))
+    if not gap.getArea(cold=True) > 0:
+        raise MachineryError("gap family: the cold gap must be open (legal as-built geometry), got %r" % gap.getArea(cold=True))
+    return comps
 
 
 def build_tree(tree, family="circle"):
@@ -162,6 +191,8 @@ def build_tree(tree, family="circle"):
             w.node[b_id] = b
             for l, c in zip(leaves, b):
                 w.node[l] = c
+                # which nuclide adjustMassEnrichment enriches is a datum of the material: U235 for every component built here
+                c.material.enrichedNuclide = "U235"
         a.calculateZCoords()
         sym = tree["sym"][str(blks[0])]
         if sym == 3:
@@ -182,3 +213,59 @@ def set_composition(w, N, H):
     for l in w.leaves:
         c = w.node[l]
         c.p.numberDensities = {n: float(N[l - 1][n]) for n in H[l - 1]}
+
+
+def build_placement(full_area=6.0, heights=(1, 2, 3), dens=(1, 2, 3), nuclide="U235"):
+    """Third-core (periodic) hex core with a spent fuel pool and three one-block assemblies of the same cross-section (two Custom
+    circles), heights / densities as given: assembly 1 at the centre, 2 on the 0-degree symmetry line (2,-1), 3 at the interior
+    position (1,0).  Returns a World with .r .core .sfp .A {1,2,3: assembly} .changer (EdgeAssemblyChanger) .fh (FuelHandler)
+    .loc {"centre","line0","int1","int2","line120": (i, j)}."""
+    armi_ready()
+    from armi.physics.fuelCycle.fuelHandlers import FuelHandler
+    from armi.reactor import assemblies, blocks, blueprints, geometry, grids, reactors
+    from armi.reactor.converters.geometryConverters import EdgeAssemblyChanger
+    from armi.reactor.spentFuelPool import SpentFuelPool
+
+    w = World()
+    r = reactors.Reactor("c02p", blueprints.Blueprints())
+    core = reactors.Core("Core")
+    r.add(core)
+    core.spatialGrid = grids.HexGrid.fromPitch(16.0)
+    core.spatialGrid.geomType = geometry.GeomType.HEX
+    core.spatialGrid.symmetry = str(geometry.SymmetryType(geometry.DomainType.THIRD_CORE, geometry.BoundaryType.PERIODIC))
+    core.spatialGrid.armiObject = core
+    core._trackAssems = True
+    core.stationaryBlockFlagsList = []
+    sfp = SpentFuelPool("Spent Fuel Pool")
+    sfp.spatialGrid = grids.CartesianGrid.fromRectangle(50.0, 50.0)
+    sfp.spatialGrid.armiObject = sfp
+    for j in range(3):
+        for i in range(3):
+            sfp.spatialGrid[i, j, 0]
+    r.add(sfp)
+    r.p.maxAssemNum = 0
+    w.r, w.core, w.sfp = r, core, sfp
+    w.loc = {"centre": (0, 0), "line0": (2, -1), "int1": (1, 0), "int2": (2, 0), "line120": (-1, 2)}
+    w.A = {}
+    for k, (h, d, where) in enumerate(zip(heights, dens, ("centre", "line0", "int1")), start=1):
+        a = assemblies.HexAssembly("fuel", assemNum=r.incrementAssemNum())
+        a.spatialGrid = grids.AxialGrid.fromNCells(1)
+        a.spatialGrid.armiObject = a
+        b = blocks.HexBlock("pb%d" % k, height=float(h))
+        for i, frac in enumerate((1.0 / 3.0, 2.0 / 3.0)):
+            c = make_component("Circle", "pb%d-c%d" % (k, i), full_area * frac, "Custom", 1)
+            c.p.numberDensities = {nuclide: float(d)}
+            b.add(c)
+        a.add(b)
+        a.calculateZCoords()
+        core.add(a, core.spatialGrid[w.loc[where][0], w.loc[where][1], 0])
+        w.A[k] = a
+    w.changer = EdgeAssemblyChanger()
+
+    class _Op:
+        pass
+
+    op = _Op()
+    op.r, op.cs = r, None
+    w.fh = FuelHandler(op)
+    return w
